@@ -12,8 +12,10 @@ import TpmVerif.Gen.Consts
 namespace TpmVerif.Model.Clock
 open TpmVerif
 
-def W : Nat := 2 ^ 64
-def W32 : Nat := 2 ^ 32
+/-- 2^64 -/
+def W : Nat := 18446744073709551616
+/-- 2^32 -/
+def W32 : Nat := 4294967296
 
 /-- uint64 subtraction a - b -/
 def sub64 (a b : Nat) : Nat := (a % W + (W - b % W)) % W
@@ -28,34 +30,36 @@ structure Plat where
   adjustRate : Nat := Gen.CLOCK_NOMINAL
   hostAdj : Nat := 0        -- s_hostMonotonicAdjustTime as uint64 bit pattern
   suspElapsed : Nat := 0    -- s_suspendedElapsedTime
-  timerStopped : Bool := true
-  timerReset : Bool := true
 deriving Repr, DecidableEq, Inhabited
 
-/-- `_plat__TimerReset` -/
+/-- `_plat__TimerReset` (the two flags `s_timerReset`/`s_timerStopped` it also sets live in `St`) -/
 def Plat.reset (p : Plat) : Plat :=
-  { p with lastSystem := 0, tpmTime := 0, adjustRate := Gen.CLOCK_NOMINAL, timerReset := true,
-           timerStopped := true, hostAdj := 0, suspElapsed := 0 }
+  { p with lastSystem := 0, tpmTime := 0, adjustRate := Gen.CLOCK_NOMINAL, hostAdj := 0, suspElapsed := 0 }
 
 /-- `_plat__RealTime` for host monotonic reading `mono` (ms) -/
 def Plat.realTime (p : Plat) (mono : Nat) : Nat := add64 (add64 mono p.hostAdj) p.suspElapsed
 
-/-- `_plat__TimerRead`: returns new platform state and the TPM time -/
-def Plat.timerRead (p : Plat) (mono : Nat) : Plat × Nat :=
+/-- first half of `_plat__TimerRead`: a reported time that is locked to the host clock but never goes backwards -/
+def Plat.report (p : Plat) (mono : Nat) : Plat :=
   let timeNow := p.realTime mono
   -- first use after a reset
-  let p := if p.lastSystem = 0 then { p with lastSystem := timeNow, lastReported := 0, realPrev := 0 } else p
-  let p := if timeNow < p.lastReported then { p with lastSystem := timeNow } else p
-  let rep := sub64 (add64 p.lastReported timeNow) p.lastSystem
-  let p := { p with lastReported := rep, lastSystem := timeNow }
-  let now := rep
-  if p.realPrev ≥ now then (p, p.tpmTime)
+  let (ls, lr, rp) := if p.lastSystem = 0 then (timeNow, 0, 0) else (p.lastSystem, p.lastReported, p.realPrev)
+  let ls := if timeNow < lr then timeNow else ls
+  { p with lastReported := sub64 (add64 lr timeNow) ls, lastSystem := timeNow, realPrev := rp }
+
+/-- second half of `_plat__TimerRead`: rate adjustment of the reported-time difference -/
+def Plat.adjust (p : Plat) : Plat :=
+  if p.realPrev ≥ p.lastReported then p
   else
-    let diff := now - p.realPrev
+    let diff := p.lastReported - p.realPrev
     let adj := (diff * Gen.CLOCK_NOMINAL % W) / p.adjustRate
     let readj := (adj * p.adjustRate % W) / Gen.CLOCK_NOMINAL
-    let p := { p with tpmTime := add64 p.tpmTime adj, realPrev := add64 p.realPrev readj }
-    (p, p.tpmTime)
+    { p with tpmTime := add64 p.tpmTime adj, realPrev := add64 p.realPrev readj }
+
+/-- `_plat__TimerRead`: returns new platform state and the TPM time -/
+def Plat.timerRead (p : Plat) (mono : Nat) : Plat × Nat :=
+  let p := (p.report mono).adjust
+  (p, p.tpmTime)
 
 /-- `_plat__ClockRateAdjust` on the TPM_CLOCK_ADJUST value (−3..3; 0 = no change) -/
 def Plat.rateAdjust (p : Plat) (adj : Int) : Plat :=
@@ -85,6 +89,7 @@ deriving Repr, DecidableEq, Inhabited
 
 structure St where
   p : Plat := {}
+  timerStopped : Bool := true   -- s_timerStopped (read-once flag consumed by TimeUpdate)
   started : Bool := false
   gTime : Nat := 0
   clock : Nat := 0          -- go.clock (live)
@@ -111,7 +116,7 @@ def St.clockUpdate (s : St) (newTime : Nat) : St :=
 
 /-- `TimeUpdate` at host monotonic reading `mono` -/
 def St.timeUpdate (s : St) (mono : Nat) : St :=
-  let s := if s.p.timerStopped then { s with p := { s.p with timerStopped := false }, updateNV := true } else s
+  let s := if s.timerStopped then { s with timerStopped := false, updateNV := true } else s
   let (p, t) := s.p.timerRead mono
   let elapsed := sub64 t s.gTime
   let s := { s with p := p, gTime := add64 s.gTime elapsed }
@@ -152,27 +157,40 @@ def RC_INITIALIZE : Nat := 0x100
 
 def isOrderly (v : Nat) : Bool := v < Gen.SU_DA_USED_VALUE
 
+/-- `g_prevOrderlyState` as computed at the top of `TPM2_Startup`: DA_USED counts as NONE, the startup
+    modifier flags are stripped from an orderly value -/
+def prevOrderly (o : Nat) : Nat :=
+  let o := if o = Gen.SU_DA_USED_VALUE then Gen.SU_NONE_VALUE else o
+  if isOrderly o then o % Gen.STARTUP_LOCALITY_3 else o
+
+/-- the counter switch of `TPM2_Startup`: Resume / Restart / Reset -/
+def St.bumpCounters (s : St) (prev su : Nat) : St :=
+  if prev = 1 ∧ su = 1 then { s with restartCount := s.restartCount + 1 }
+  else if prev = 1 then { s with clearCount := s.clearCount + 1, restartCount := s.restartCount + 1 }
+  else { s with clearCount := 0, resetCount := s.resetCount + 1, restartCount := 0,
+                nv := { s.nv with resetCount := s.resetCount + 1 } }
+
+/-- `TPM2_Startup` up to and including `TimeStartup`: clean orderlyState, restore gr after Shutdown(STATE),
+    clear `safe` unless the previous shutdown was orderly -/
+def St.startupPrep (s : St) (prev : Nat) : St :=
+  let s := { s with orderly := prev }
+  let s := if prev = 1 then { s with restartCount := s.nv.grRestart, clearCount := s.nv.grClear } else s
+  if !isOrderly prev then { s with safe := false } else s
+
+/-- the success path of `TPM2_Startup` -/
+def St.startupOk (s : St) (mono su : Nat) : St :=
+  let prev := prevOrderly s.orderly
+  let s := s.startupPrep prev
+  let s := s.timeUpdate mono          -- DAStartup ends with TimeUpdate()
+  let s := s.bumpCounters prev su
+  { s with orderly := Gen.SU_NONE_VALUE, nv := { s.nv with orderly := Gen.SU_NONE_VALUE },
+           updateNV := true, started := true }
+
 /-- the body of `TPM2_Startup` (locality 0, no H-CRTM) -/
 def St.startup (s : St) (mono : Nat) (su : Nat) : St × Nat :=
-  let s := if s.orderly = Gen.SU_DA_USED_VALUE then { s with orderly := Gen.SU_NONE_VALUE } else s
-  let prev := s.orderly
-  let prev := if isOrderly prev then prev % Gen.STARTUP_LOCALITY_3 else prev   -- clear 0x8000|0x4000
-  if su = 1 ∧ prev ≠ 1 then (s, RC_VALUE_P1) else
-  let s := { s with orderly := prev }
-  -- gr restored from NV when the previous shutdown was STATE
-  let s := if prev = 1 then { s with restartCount := s.nv.grRestart, clearCount := s.nv.grClear } else s
-  -- TimeStartup
-  let s := if !isOrderly s.orderly then { s with safe := false } else s
-  -- DAStartup ends with TimeUpdate()
-  let s := s.timeUpdate mono
-  let s :=
-    if prev = 1 ∧ su = 1 then { s with restartCount := s.restartCount + 1 }
-    else if prev = 1 then { s with clearCount := s.clearCount + 1, restartCount := s.restartCount + 1 }
-    else { s with clearCount := 0, resetCount := s.resetCount + 1, restartCount := 0,
-                  nv := { s.nv with resetCount := s.resetCount + 1 } }
-  let s := { s with orderly := Gen.SU_NONE_VALUE, nv := { s.nv with orderly := Gen.SU_NONE_VALUE },
-                    updateNV := true, started := true }
-  (s, 0)
+  if su = 1 ∧ prevOrderly s.orderly ≠ 1 then
+    ({ s with orderly := if s.orderly = Gen.SU_DA_USED_VALUE then Gen.SU_NONE_VALUE else s.orderly }, RC_VALUE_P1)
+  else (s.startupOk mono su, 0)
 
 /-- the body of `TPM2_Shutdown` -/
 def St.shutdown (s : St) (su : Nat) : St × Nat :=
@@ -181,35 +199,40 @@ def St.shutdown (s : St) (su : Nat) : St × Nat :=
   let nv := { nv with orderly := su }
   ({ s with orderly := su, nv := nv, updateNV := true }, 0)
 
+/-- the body of `TPM2_ClockSet` -/
+def St.clockSet (s : St) (v : Nat) : St × Nat :=
+  if v > 0xFFFF000000000000 ∨ v < s.clock then (s, RC_VALUE_P1) else (s.clockUpdate v, 0)
+
+/-- the command handlers -/
+def St.body (s : St) (mono : Nat) : Cmd → St × Nat × Option ClockInfo
+  | .readClock => (s, 0, some s.info)
+  | .clockSet v => ((s.clockSet v).1, (s.clockSet v).2, none)
+  | .rateAdjust a => ({ s with p := s.p.rateAdjust a }, 0, none)
+  | .startup su => ((s.startup mono su).1, (s.startup mono su).2, none)
+  | .shutdown su => ((s.shutdown su).1, (s.shutdown su).2, none)
+  | .commitCmd => ({ s with updateNV := true }, 0, none)
+  | .neutral => (s, 0, none)
+
+/-- "only TPM2_Startup after _TPM_Init, and never again": TPM_RC_INITIALIZE -/
+def St.gateFails (s : St) : Cmd → Bool
+  | .startup _ => s.started
+  | _ => !s.started
+
 /-- One command through `ExecuteCommand` at host monotonic time `mono`. Result: state, response code,
     clock info for ReadClock, whether storage was written. -/
 def St.exec (s : St) (mono : Nat) (c : Cmd) : St × Nat × Option ClockInfo × Bool :=
-  let s := s.entry mono
-  let isStartup := match c with | .startup _ => true | _ => false
-  if (!s.started && !isStartup) || (s.started && isStartup) then
-    let (s, st) := s.finish
-    (s, RC_INITIALIZE, none, st)
+  let s1 := s.entry mono
+  if s1.gateFails c then (s1.finish.1, RC_INITIALIZE, none, s1.finish.2)
   else
-  let (s, rc, inf) : St × Nat × Option ClockInfo :=
-    match c with
-    | .readClock => (s, 0, some s.info)
-    | .clockSet v =>
-        if v > 0xFFFF000000000000 ∨ v < s.clock then (s, RC_VALUE_P1, none)
-        else (s.clockUpdate v, 0, none)
-    | .rateAdjust a => ({ s with p := s.p.rateAdjust a }, 0, none)
-    | .startup su => let (s, rc) := s.startup mono su; (s, rc, none)
-    | .shutdown su => let (s, rc) := s.shutdown su; (s, rc, none)
-    | .commitCmd => ({ s with updateNV := true }, 0, none)
-    | .neutral => (s, 0, none)
-  let (s, st) := s.finish
-  (s, rc, inf, st)
+    let r := s1.body mono c
+    (r.1.finish.1, r.2.1, r.2.2, r.1.finish.2)
 
 /-- `TPMLIB_Terminate` + `TPMLIB_MainInit` from what storage holds (power cut or orderly restart):
     `_plat__TimerReset`, `_TPM_Init` reads gp and go from NV, `TimePowerOn`. -/
 def St.restart (s : St) (mono : Nat) : St :=
   let p := s.p.reset
   let (p, t) := p.timerRead mono
-  { s with p := p, started := false, gTime := t, clock := s.disk.clock, safe := s.disk.safe,
+  { s with p := p, timerStopped := true, started := false, gTime := t, clock := s.disk.clock, safe := s.disk.safe,
            orderly := s.disk.orderly, resetCount := s.disk.resetCount, nv := s.disk, updateNV := false }
 
 /-- what the volatile blob carries of the clock (v4 tail) -/
